@@ -139,7 +139,7 @@ def plan(T, tier):
     return km, jobs
 
 
-def check(run):
+def _check_main(run):
     global _T
     T = pengine.load()
     _T = T
@@ -300,3 +300,10 @@ def from_parse_error_total(prog):
         if not (isinstance(rg, tuple) and rg[0] == 'call' and rg[1].endswith('Range::new')):
             detail.append('range is not built by Range::new')
     return (not detail), detail, nq + len(paths)
+
+
+
+def check(run):
+    _check_main(run)
+    import mirror
+    mirror.silent_recovery_obligation(run)
